@@ -272,11 +272,11 @@ def coq_term(case, model):
     if op == "rnd.urange":
         return "gen_biguint_range addsub %s %s %s" % (coq_list(a[0]), coq_list(a[1]), _wl(ws)), rhs
     if op == "rnd.irange":
-        return "gen_bigint_range addsub %s %s %s" % (coq_bigint(a[0]), coq_bigint(a[1]), _wl(ws)), rhs
+        return "gen_bigint_range signs addsub %s %s %s" % (coq_bigint(a[0]), coq_bigint(a[1]), _wl(ws)), rhs
     if op == "rnd.uu_incl":
         return ("(do u <- uu_new_inclusive addsub %s %s; uu_sample addsub u %s)"
                 % (coq_list(a[0]), coq_list(a[1]), _wl(ws))), rhs
     if op == "rnd.ui_incl":
-        return ("(do u <- ui_new_inclusive addsub %s %s; ui_sample addsub u %s)"
+        return ("(do u <- ui_new_inclusive signs addsub %s %s; ui_sample signs addsub u %s)"
                 % (coq_bigint(a[0]), coq_bigint(a[1]), _wl(ws))), rhs
     return None
